@@ -783,7 +783,7 @@ func (env *Env) call(x *ECall) SVal {
 		return SVal{T: toReal(v.T), Sort: "Real"}
 	case "trunc8":
 		v := env.value(env.eval(x.Args[0]))
-		return SVal{T: app("trunc8", v.T), Sort: "Real"}
+		return SVal{T: app(d.Trunc8(), v.T), Sort: "Real"}
 	case "dmul":
 		as := evalArgs()
 		return SVal{T: app(dmulFn(d), env.value(as[0]).T, env.value(as[1]).T), Sort: "Real"}
